@@ -4,6 +4,11 @@ pub fn create_actor_at_thread<T>(actor: T) -> Addr<T>
 where
     T: Actor<Context = Context<T>> + Send,
 {
+    #[cfg(rnacos_verif)]
+    {
+        return actor.start();
+    }
+    #[allow(unreachable_code)]
     let (tx, rx) = std::sync::mpsc::sync_channel(1);
     std::thread::spawn(move || {
         let rt = System::new();
@@ -19,6 +24,11 @@ where
     T1: Actor<Context = Context<T1>> + Send,
     T2: Actor<Context = Context<T2>> + Send,
 {
+    #[cfg(rnacos_verif)]
+    {
+        return (a.start(), b.start());
+    }
+    #[allow(unreachable_code)]
     let (tx, rx) = std::sync::mpsc::sync_channel(1);
     std::thread::spawn(move || {
         let rt = System::new();
@@ -35,6 +45,11 @@ where
     T2: Actor<Context = Context<T2>> + Send,
     T3: Actor<Context = Context<T3>> + Send,
 {
+    #[cfg(rnacos_verif)]
+    {
+        return (a.start(), b.start(), c.start());
+    }
+    #[allow(unreachable_code)]
     let (tx, rx) = std::sync::mpsc::sync_channel(1);
     std::thread::spawn(move || {
         let rt = System::new();
